@@ -12,11 +12,13 @@ theorem facts_C08 : holdsAll expectedC08 = true := by decide
 variables of the packages this property's code lives in, the functions (other than `init`) that
 assign to them or call methods on them, and the fields of the property's struct types. The model is
 a pure function of the arguments and of these fields; a new variable, writer or field is state the
-model does not know of. The digest-valued entries cover, per package: every declared function and
-method with its receiver kind (`funcs:`), every function-reads-package-variable pair (`reads:`) and
-every write through a parameter or receiver, including in-place `sort.*`/`copy` (`pwrites:`); the
-lists behind the digests are in `funcs_expected.txt` and in comments of the generated file. -/
-def stateC08 : List (String × String) := [("globals:mathx", "nan smallFact"), ("globalwrites:mathx", ""), ("funcs:mathx", "n=13 fnv64a=721c592b642cc9ba"), ("reads:mathx", "n=2 fnv64a=0b5c58057d585a6b"), ("pwrites:mathx", "n=0 fnv64a=cbf29ce484222325")]
+model does not know of. The digest-valued `shape:` entry covers everything the call graph
+(resolved by go/types) reaches from the functions declared in the property's anchor files: per
+function, method (with receiver kind), package variable and constant, its numeric literals, the
+package variables it reads and its writes through parameters or the receiver (including in-place
+`sort.*`/`copy`/`append`). The entries behind the digest are in `shape_expected.txt` and in a
+comment of the generated file. -/
+def stateC08 : List (String × String) := [("globals:mathx", "nan smallFact"), ("globalwrites:mathx", ""), ("shape:C08", "n=16 fnv64a=710ae41fb948cfca")]
 
 /-- the source has exactly the package-level variables, writers and struct fields the model accounts for -/
 theorem state_C08 : holdsAll stateC08 = true := by decide +kernel
